@@ -136,6 +136,19 @@ func sealAll(client interface {
 	return last, nil
 }
 
+// waitPool waits until the simulated backend's transaction pool has caught up with the last sealed block (its pending
+// nonce for addr equals the state nonce); the pool resets asynchronously and lags under load.
+func waitPool(client interface{ Client() simulated.Client }, addr common.Address) {
+	for i := 0; i < 2000; i++ {
+		p, e1 := client.Client().PendingNonceAt(bg, addr)
+		n, e2 := client.Client().NonceAt(bg, addr, nil)
+		if e1 == nil && e2 == nil && p == n {
+			return
+		}
+		time.Sleep(time.Millisecond)
+	}
+}
+
 func waitProcessed(get func() (uint64, error), target uint64) error {
 	dl := time.Now().Add(180 * time.Second)
 	for time.Now().Before(dl) {
@@ -168,12 +181,14 @@ func TestC01EVM(t *testing.T) {
 			rt.Fatalf("INCONCLUSIVE: deploy GER: %v", err)
 		}
 		client.Commit()
+		waitPool(client, setup.UserAuth.From)
 		bridge := setup.BridgeProxyContract
 		path, clean := tmpDB("c01evm")
 		defer clean()
 		tc := &traceClient{Client: client.Client(), from: setup.UserAuth.From}
 		var syncer *bridgesync.BridgeSync
 		var cancel context.CancelFunc
+		var stopped chan struct{}
 		startSyncer := func() {
 			var ctx context.Context
 			ctx, cancel = context.WithCancel(bg)
@@ -183,7 +198,9 @@ func TestC01EVM(t *testing.T) {
 				rt.Fatalf("NewL1: %v", err)
 			}
 			syncer = s
-			go s.Start(ctx)
+			done := make(chan struct{})
+			stopped = done
+			go func() { s.Start(ctx); close(done) }()
 		}
 		startSyncer()
 		defer func() { cancel() }()
@@ -192,6 +209,10 @@ func TestC01EVM(t *testing.T) {
 		var roots []common.Hash
 		nBlocks := rapid.IntRange(8, 25).Draw(rt, "nBlocks")
 		restarts := 0
+		nextNonce, err := client.Client().PendingNonceAt(bg, setup.UserAuth.From)
+		if err != nil {
+			rt.Fatalf("INCONCLUSIVE: nonce: %v", err)
+		}
 		lastEventBlock := uint64(0)
 		for b := 0; b < nBlocks; b++ {
 			n := rapid.SampledFrom([]int{0, 1, 1, 2, 3, 5}).Draw(rt, "perBlock")
@@ -203,6 +224,9 @@ func TestC01EVM(t *testing.T) {
 				auth := *setup.UserAuth
 				auth.Value = amount
 				auth.GasLimit = 3_000_000
+				// explicit nonces: under load the pool's pending nonce can lag a transaction that was just sent
+				auth.Nonce = new(big.Int).SetUint64(nextNonce)
+				nextNonce++
 				d := bridgesync.Bridge{DestinationNetwork: destNet, DestinationAddress: destAddr, Amount: amount, DepositCount: uint32(len(deps))}
 				if rapid.Bool().Draw(rt, "message") {
 					meta := genMeta.Draw(rt, "metadata")
@@ -250,8 +274,13 @@ func TestC01EVM(t *testing.T) {
 				rt.Fatalf("INCONCLUSIVE: contract deposit count %v vs %d", dc, len(deps))
 			}
 			if rapid.IntRange(0, 6).Draw(rt, "restart") == 0 {
+				// a restart is a new process: the old instance must be gone before the new one opens the same database
 				cancel()
-				time.Sleep(3 * time.Millisecond)
+				select {
+				case <-stopped:
+				case <-time.After(30 * time.Second):
+					rt.Fatalf("INCONCLUSIVE: the stopped syncer instance did not return within 30s")
+				}
 				startSyncer()
 				restarts++
 			}
@@ -316,6 +345,7 @@ func TestC11EVM(t *testing.T) {
 		client, setup := helpers.NewSimulatedBackend(t, nil, deployer)
 		defer client.Close()
 		auth := setup.UserAuth
+		waitPool(client, auth.From)
 		nonce, _ := client.Client().PendingNonceAt(bg, auth.From)
 		gerPre := crypto.CreateAddress(auth.From, nonce+1)
 		verifyAddr, _, verifySC, err := verifybatchesmock.DeployVerifybatchesmock(auth, client.Client(), gerPre)
@@ -323,11 +353,13 @@ func TestC11EVM(t *testing.T) {
 			rt.Fatalf("INCONCLUSIVE: %v", err)
 		}
 		client.Commit()
+		waitPool(client, auth.From)
 		gerAddr, _, gerSC, err := polygonzkevmglobalexitrootv2.DeployPolygonzkevmglobalexitrootv2(auth, client.Client(), verifyAddr, auth.From)
 		if err != nil || gerAddr != gerPre {
 			rt.Fatalf("INCONCLUSIVE: deploy GER: %v", err)
 		}
 		client.Commit()
+		waitPool(client, auth.From)
 		path, clean := tmpDB("c11evm")
 		defer clean()
 		ctx, cancel := context.WithCancel(bg)
@@ -344,12 +376,21 @@ func TestC11EVM(t *testing.T) {
 		nBlocks := rapid.IntRange(8, 30).Draw(rt, "nBlocks")
 		ta := *auth
 		ta.GasLimit = 3_000_000
+		nextNonce, err := client.Client().PendingNonceAt(bg, auth.From)
+		if err != nil {
+			rt.Fatalf("INCONCLUSIVE: nonce: %v", err)
+		}
+		useNonce := func() {
+			ta.Nonce = new(big.Int).SetUint64(nextNonce)
+			nextNonce++
+		}
 		lastEventBlock := uint64(0)
 		for b := 0; b < nBlocks; b++ {
 			nTx := rapid.SampledFrom([]int{0, 1, 1, 2, 4}).Draw(rt, "perBlock")
 			var sent []*types.Transaction
 			for i := 0; i < nTx; i++ {
 				if rapid.Bool().Draw(rt, "mainnetUpdate") {
+					useNonce()
 					tx, err := gerSC.UpdateExitRoot(&ta, genHash.Draw(rt, "mer"))
 					if err != nil {
 						rt.Fatalf("INCONCLUSIVE: updateExitRoot: %v", err)
@@ -368,6 +409,7 @@ func TestC11EVM(t *testing.T) {
 					default:
 						ler = genHash.Draw(rt, "ler")
 					}
+					useNonce()
 					tx, err := verifySC.VerifyBatches(&ta, id, uint64(b), ler, genHash.Draw(rt, "stateRoot"), rapid.Bool().Draw(rt, "updateGER"))
 					if err != nil {
 						rt.Fatalf("INCONCLUSIVE: verifyBatches: %v", err)
